@@ -18,6 +18,17 @@ func main() {
 		os.Exit(2)
 	}
 	id := os.Args[1]
+	if id == "warm" {
+		if _, _, err := lib.BuildPlugins(); err != nil {
+			fmt.Println(err)
+			os.Exit(1)
+		}
+		if _, err := lib.ProtocGenGo(); err != nil {
+			fmt.Println(err)
+			os.Exit(1)
+		}
+		return
+	}
 	fn, ok := checks[id]
 	if !ok {
 		fmt.Printf("HARNESS-FAILURE property=%s: no check registered\n", id)
